@@ -28,6 +28,12 @@ CLAIMS = {
          "empty and silent for ever. One model serves Subject, SubjectThreads and the three MutRef subjects (one macro body); each run "
          "executes all histories <= 4 operations (18 kinds) plus 50k random longer ones on all five real types. Lock-level interleavings "
          "of SubjectThreads are not covered here (C10).", "DESIGN.md section 5 C06"),
+ "C12": ("Theorems C12_behavior_refines / C12_value_is_latest / C12_hands_latest: for every sequential history of next / next_by / clone / "
+         "subscribe / unsubscribe / peek / complete / error (any length), the subject-plus-value-cell model equals the abstract 'multicast "
+         "set + most recent value'; the stored value is the last one passed to next/next_by through any handle (or the initial one); a new "
+         "subscriber is handed it first, peek returns it, next_by applies its function to it. Each run executes all histories <= 4 operations "
+         "(15 kinds) and 30k random ones on BehaviorSubject over Subject and over SubjectThreads. PARTIAL: the clause about concurrent "
+         "producers over the thread-safe subject is not decided by this check.", "DESIGN.md section 5 C12"),
 }
 
 checks = []
